@@ -27,8 +27,10 @@ func checkC03(r *Run) {
 	// C01) decides that the context splice, the fields and the hook fields are whole members
 	// separated exactly once (an empty embedded object adds nothing, not even a separator)
 	ruleA2(r, p)
-	ruleHlogIsolation(r, p)                  // per-request loggers: one request's fields never show up in another's events
-	ruleUpdateContextApplies(r, p, "UPDCTX") // fields added through UpdateContext are part of the chain whatever the logger's level
+	ruleA12Copy(r, p)                             // Output() gives the new logger its own context bytes (UpdateContext on both would cut fields)
+	ruleTimestampHookUnconditional(r, p, "HOOKS") // the timestamp hook adds its field on every path
+	ruleHlogIsolation(r, p)                       // per-request loggers: one request's fields never show up in another's events
+	ruleUpdateContextApplies(r, p, "UPDCTX")      // fields added through UpdateContext are part of the chain whatever the logger's level
 	ruleAppendersKeepInputs(r, p, "PURE", []string{"internal/json", cborRel})
 	ruleGate(r, p, true) // hooks run for every enabled event: the gate (C04) rejects for no reason other than levels and the sampler
 	r.Floor("NEWEV", 5)
